@@ -7,6 +7,7 @@ package main
 // running and restarts the worker behind it.
 
 import (
+	"syscall"
 	"bufio"
 	"bytes"
 	"encoding/json"
@@ -126,7 +127,7 @@ func runChunk(comp string, lo, hi int, args []string, rp *rep.Report, crashProps
 		cmd := exec.Command(os.Args[0], append([]string{comp}, append(args, "-worker", fmt.Sprintf("%d:%d", next, hi))...)...)
 		var stderr bytes.Buffer
 		cmd.Stderr = &stderr
-		cmd.Env = append(os.Environ(), "GOTRACEBACK=single")
+		cmd.Env = append(os.Environ(), "GOTRACEBACK=all")
 		stdout, err := cmd.StdoutPipe()
 		must(err)
 		must(cmd.Start())
@@ -146,8 +147,10 @@ func runChunk(comp string, lo, hi int, args []string, rp *rep.Report, crashProps
 					return
 				case <-t.C:
 					if time.Since(lp.Load().(time.Time)) > perScenarioTimeout {
-						cmd.Process.Signal(os.Interrupt)
-						time.Sleep(200 * time.Millisecond)
+						// SIGQUIT: the Go runtime writes every goroutine's stack to stderr (kept in the
+						// replay file: a hang is diagnosed from where the goroutines are parked)
+						cmd.Process.Signal(syscall.SIGQUIT)
+						time.Sleep(1500 * time.Millisecond)
 						cmd.Process.Kill()
 						return
 					}
@@ -180,9 +183,25 @@ func runChunk(comp string, lo, hi int, args []string, rp *rep.Report, crashProps
 				what = fmt.Sprintf("scenario did not finish within %s (hang)", perScenarioTimeout)
 				kind = "hang"
 			}
+			site := crashSite(stderr.String())
+			if kind == "hang" {
+				site = "unknown" // (the dump of a hang lists every goroutine: there is no one site)
+				// a scenario that hung in the middle of a worker's batch is run again alone, in a fresh
+				// process, up to twice: if it then completes, what happened depended on the machine's
+				// load or on what the process had run before, and says nothing about the scenario; its
+				// own result is used and the incident is counted (evidence: worker-hang-not-reproduced)
+				if o := rerunAlone(comp, running, args, perScenarioTimeout); o != nil {
+					rp.Count("worker-hang-not-reproduced")
+					rp.Note("scenario %d of %s did not finish within %s inside a batch but completes when run alone (load-dependent); library frames of the stuck process: %v", running, comp, perScenarioTimeout, libraryFrames(stderr.String()))
+					emit(o)
+					crashes--
+					next = running + 1
+					continue
+				}
+			}
 			for _, p := range crashProps {
-				rp.Violate(rep.Violation{Property: p, Monitor: "process-survives", Key: fmt.Sprintf("%s/%s/%s/%s", p, kind, comp, crashSite(stderr.String())), What: what,
-					Replay: map[string]interface{}{"component": comp, "index": running, "scenario": runningDesc, "stderr_head": trunc(stderr.String(), 3000)}})
+				rp.Violate(rep.Violation{Property: p, Monitor: "process-survives", Key: fmt.Sprintf("%s/%s/%s/%s", p, kind, comp, site), What: what,
+					Replay: map[string]interface{}{"component": comp, "index": running, "scenario": runningDesc, "stderr_head": trunc(stderr.String(), 3000), "library_frames": libraryFrames(stderr.String())}})
 			}
 			rp.Count("worker-" + kind)
 			next = running + 1
@@ -195,6 +214,64 @@ func runChunk(comp string, lo, hi int, args []string, rp *rep.Report, crashProps
 			next++
 		}
 	}
+}
+
+// rerunAlone runs scenario idx in a process of its own (twice at most) and returns its result, or nil
+// if it does not complete within the time limit either time.
+func rerunAlone(comp string, idx int, args []string, limit time.Duration) *scenarioOut {
+	for try := 0; try < 2; try++ {
+		cmd := exec.Command(os.Args[0], append([]string{comp}, append(args, "-worker", fmt.Sprintf("%d:%d", idx, idx+1))...)...)
+		cmd.Env = append(os.Environ(), "GOTRACEBACK=single")
+		var out bytes.Buffer
+		cmd.Stdout = &out
+		if cmd.Start() != nil {
+			return nil
+		}
+		done := make(chan error, 1)
+		go func() { done <- cmd.Wait() }()
+		select {
+		case <-done:
+		case <-time.After(limit):
+			cmd.Process.Kill()
+			<-done
+			continue
+		}
+		sc := bufio.NewScanner(&out)
+		sc.Buffer(make([]byte, 1<<20), 1<<28)
+		for sc.Scan() {
+			var o scenarioOut
+			if json.Unmarshal(sc.Bytes(), &o) == nil && !o.Begin && o.Idx == idx {
+				return &o
+			}
+		}
+	}
+	return nil
+}
+
+// libraryFrames: for every goroutine of a dump that is inside github.com/hslam/rpc, its state and
+// its frames in the library (at most 120 goroutines).
+func libraryFrames(s string) []string {
+	var out []string
+	for _, g := range strings.Split(s, "\n\n") {
+		if !strings.HasPrefix(g, "goroutine ") || !strings.Contains(g, "github.com/hslam/rpc.") {
+			continue
+		}
+		lines := strings.Split(g, "\n")
+		entry := lines[0]
+		for _, l := range lines[1:] {
+			if strings.HasPrefix(l, "github.com/hslam/") || strings.HasPrefix(l, "sync.") || strings.HasPrefix(l, "main.") {
+				if i := strings.LastIndex(l, "("); i > 0 {
+					l = l[:i]
+				}
+				entry += " | " + strings.TrimPrefix(l, "github.com/hslam/")
+			}
+		}
+		out = append(out, trunc(entry, 600))
+		if len(out) >= 120 {
+			break
+		}
+	}
+	return out
 }
 
 func panicHead(s string) string {
